@@ -609,7 +609,7 @@ func containers(v *Val, out []*Val) []*Val {
 // edit applies one random edit to a clone of v and returns it.
 func edit(c *Chooser, g GenCfg, v *Val) *Val {
 	v = v.clone()
-	cs := containers(v, nil)
+	cs := editable(v, g.UniqueIDs, nil)
 	if len(cs) == 0 {
 		if c.Chance(1, 2) {
 			return genScalar(c, g)
@@ -826,4 +826,25 @@ func idLike(elems []*Val, _ float64) *Val {
 		}
 	}
 	return idVal(kind, max+1)
+}
+
+// editable lists the containers an edit may touch: every container, except
+// (when identities must stay unique) anything inside an "id" value.
+func editable(v *Val, protectIDs bool, out []*Val) []*Val {
+	switch v.K {
+	case 'o':
+		out = append(out, v)
+		for i, x := range v.Vals {
+			if protectIDs && v.Keys[i] == "id" {
+				continue
+			}
+			out = editable(x, protectIDs, out)
+		}
+	case 'a':
+		out = append(out, v)
+		for _, x := range v.Elems {
+			out = editable(x, protectIDs, out)
+		}
+	}
+	return out
 }
